@@ -625,7 +625,26 @@ func wireOracle(w wire, res *wireResult) (key, msg string) {
 			wantTypes += fmt.Sprintf("TargetType = %q\n", res.TargetType)
 		}
 	}
-	if got := res.RawText[len(wantRaw):]; got != wantTypes {
+	// (a slot that merely repeats a body expression of exactly that attribute with that value may be
+	// rendered once or twice: the reconstructed ad is the same)
+	altTypes := ""
+	repeats := func(attr, val string) bool {
+		for i, n := range res.Names {
+			if strings.EqualFold(n, attr) && strings.TrimSpace(res.Texts[i]) == fmt.Sprintf("%q", val) {
+				return true
+			}
+		}
+		return false
+	}
+	if w.Opts&1 == 0 || w.Raw || w.Man {
+		if res.MyType != "" && !repeats("MyType", res.MyType) {
+			altTypes += fmt.Sprintf("MyType = %q\n", res.MyType)
+		}
+		if res.TargetType != "" && !repeats("TargetType", res.TargetType) {
+			altTypes += fmt.Sprintf("TargetType = %q\n", res.TargetType)
+		}
+	}
+	if got := res.RawText[len(wantRaw):]; got != wantTypes && got != altTypes {
 		return "raw-types-differ", fmt.Sprintf("GetClassAdRaw renders the type slots (MyType %q, TargetType %q) as %q, expected %q", res.MyType, res.TargetType, got, wantTypes)
 	}
 	if !res.BodyOK || res.BodyText != res.RawText {
